@@ -83,12 +83,28 @@ func buildC16(kind string, opt bool) *c16World {
 		}
 		r = w.env.NewRouter("r", o...)
 		w.serve = r
+	case "router-nil-last": // "the last one wins": a recovery option followed by WithRecovery(nil) leaves the router without recovery
+		o := []mux.Option{mux.WithTrace(w.trace), recOpt(w.routerRec), mux.WithRecovery(nil)}
+		r = w.env.NewRouter("r", o...)
+		w.serve = r
+		w.kind, w.label, w.opt = "router", kind, false
 	case "group-add": // the group has no recovery; the added router brings its own
 		g := w.env.NewGroup()
 		o := []mux.Option{mux.WithTrace(w.trace)}
 		if opt {
 			o = append(o, recOpt(w.routerRec))
 		}
+		r = w.env.NewRouter("r", o...)
+		g.Add(mux.NewPathVersion("", "api"), r)
+		w.serve, w.g404, w.prefix = g, w.env.Group404, "/api"
+	case "group-rec-add": // group and added router each have their own recovery function (or neither has)
+		var go_ []mux.Option
+		o := []mux.Option{mux.WithTrace(w.trace)}
+		if opt {
+			go_ = append(go_, recOpt(w.groupRec))
+			o = append(o, recOpt(w.routerRec))
+		}
+		g := w.env.NewGroup(go_...)
 		r = w.env.NewRouter("r", o...)
 		g.Add(mux.NewPathVersion("", "api"), r)
 		w.serve, w.g404, w.prefix = g, w.env.Group404, "/api"
@@ -287,7 +303,7 @@ func (w *c16World) inject(c *Ctx, site c16Site, pv panicValue) {
 	expectRecovered := w.opt
 	if site.group {
 		rec = w.groupRec
-		expectRecovered = w.opt && w.kind == "group-new"
+		expectRecovered = w.opt && (w.kind == "group-new" || w.kind == "group-rec-add")
 	}
 	newCalls := (w.routerRec.calls - wr) + (w.groupRec.calls - wg)
 	if w.kind == "group-new" { // one shared recorder
@@ -373,7 +389,7 @@ func runtimeFault() any {
 func runC16(c *Ctx) {
 	sites := c16Sites()
 	n := 0
-	for _, kind := range []string{"router", "group-add", "group-new", "group-new-extra"} {
+	for _, kind := range []string{"router", "router-nil-last", "group-add", "group-rec-add", "group-new", "group-new-extra"} {
 		for _, opt := range []bool{true, false} {
 			w := buildC16(kind, opt)
 			if w.buildFault != "" {
@@ -398,7 +414,7 @@ func runC16(c *Ctx) {
 	c.ClassN("product_combinations_enumerated", n)
 	// random sequences mixing panicking and normal requests (pool reuse after recovery)
 	r := c.R
-	w := buildC16(ref.Pick(r, []string{"router", "group-add", "group-new", "group-new-extra"}), r.Chance(3, 4))
+	w := buildC16(ref.Pick(r, []string{"router", "router-nil-last", "group-add", "group-rec-add", "group-new", "group-new-extra"}), r.Chance(3, 4))
 	for k := 0; k < 60 && !c.Violated(); k++ {
 		if r.Chance(1, 3) {
 			id := fmt.Sprint(r.Intn(1000))
@@ -422,7 +438,7 @@ func init() {
 		Cases:      func(t string) int { return map[string]int{"quick": 1000, "thorough": 40000}[t] },
 		Run:        runC16,
 		Exhaustive: true,
-		Rule: "every case enumerates the complete product: 23 panic sites (route handler per method, automatic HEAD, the asterisk-form and empty request targets on a stand-alone router (OPTIONS *, GET *, TRACE *, empty path), GET and HEAD handlers that write a header, a status and body bytes before panicking, OPTIONS, 405, 404, TRACE, each middleware layer Use/prefix/registration before and after next, CallFunc, group not-found, CallFunc for group not-found) x 5 panic values (string, error, struct, genuine runtime.Error, http.ErrAbortHandler) x 4 containers (Router, Group+Add-ed router with its own recovery, Group.New router inheriting the group's option, the same with unrelated options of its own) x recovery on/off; after every fault a normal request and a 404 are checked; then a random sequence of 60 faulty/normal requests; " +
+		Rule: "every case enumerates the complete product: 23 panic sites (route handler per method, automatic HEAD, the asterisk-form and empty request targets on a stand-alone router (OPTIONS *, GET *, TRACE *, empty path), GET and HEAD handlers that write a header, a status and body bytes before panicking, OPTIONS, 405, 404, TRACE, each middleware layer Use/prefix/registration before and after next, CallFunc, group not-found, CallFunc for group not-found) x 5 panic values (string, error, struct, genuine runtime.Error, http.ErrAbortHandler) x 6 containers (Router, a router whose recovery option is followed by WithRecovery(nil) - documented \"the last one wins\", so none -, Group+Add-ed router with its own recovery, a group with a recovery function plus an Add-ed router with another one, Group.New router inheriting the group's option, the same with unrelated options of its own) x recovery on/off; after every fault a normal request and a 404 are checked; then a random sequence of 60 faulty/normal requests; " +
 			"non-trivial (distinct) = every (container, option, site, value) combination",
 		Floors: func(t string) map[string]int64 {
 			return map[string]int64{"recovered": 200, "passed_through": 200, "product_combinations_enumerated": 400, "random_sequence_fault": 100}
